@@ -69,6 +69,11 @@ pid_t waitpid(pid_t pid, int *wstat, int opt) {
   sim_tr("P%d waitpid -> status=%d\n", sim_cur->idx, st);
   return pid;
 }
+off_t c12_lseek(int fd, off_t off, int whence) {
+  off_t r = lseek(fd, off, whence);
+  if (sim_on) sim_tr("P%d lseek %d %ld %d -> %ld\n", sim_cur->idx, fd, (long)off, whence, (long)r);
+  return r;
+}
 static char g_hostname[100]; static size_t g_hostlen;
 int gethostname(char *name, size_t len) {
   if (!sim_on) { static int (*f)(char *, size_t); if (!f) f = dlsym(RTLD_NEXT, "gethostname"); return f(name, len); }
